@@ -74,6 +74,8 @@ def gen(chk):
             if not edges or not G.is_acyclic(n, edges):
                 continue
             graphs.append(('forest%d' % roots, G.label(edges, G.pick_labels(rng, n))))
+    # one dense graph: more than 255 edges on 24 nodes
+    graphs.append(('dense', G.dense_graph(rng, 24)))
     return graphs
 
 
@@ -90,7 +92,7 @@ def run(chk):
         subs = {a for a, _ in es}
         k = len({G.key_of(b) for _, b in es} - {G.key_of(a) for a in subs})
         chk.count('parentless:%d' % min(k, 4))
-        calls = calls_for(es, rng, full=len(G.nodes_of(es)) <= 6)
+        calls = calls_for(es, rng, full=len(G.nodes_of(es)) <= 6 or fam == 'dense')
         for vname, v in variants(rng, es):
             chk.count('variant:' + vname)
             for f in FACTORIES:
